@@ -1,6 +1,7 @@
 import DswModel.Model.Spiderweb
 import DswModel.Lemmas.Defs
 import DswModel.Lemmas.Trim
+import DswModel.Lemmas.TrimOne
 /-!
 # C03 — the coding graph is the largest closed sub-graph, or a ValueError
 
@@ -60,7 +61,32 @@ theorem C03_gfp (k t : Nat) (m : Mask) (hm : m.size = 4 ^ k) (hk : 1 ≤ k) (ht 
           vs = obtainVertices a ∧ vs ≠ []) ∧
     (∀ e, connectCodingGraph k m t = .error e →
         e = .valueError ∧ ∀ s : Mask, s.size = 4 ^ k → s.Sub m → ClosedFor k t s → s.indices = []) := by
-  sorry
+  have ht1 : t ≠ 1 := by omega
+  have hCF : ∀ s : Mask, ClosedFor k t s ↔ Closed k t s := by
+    intro s; simp [ClosedFor, ht1]
+  have hfuel : m.count < 4 ^ k + 1 := by
+    have := Trim.Mask.count_le_size m; omega
+  rw [Trim.connectCodingGraph_eq k m t ht1]
+  refine ⟨fun vs a h => ?_, fun e h => ?_⟩
+  · cases hl : trimLoop k t (4 ^ k + 1) m with
+    | error e' => rw [hl] at h; cases h
+    | ok s =>
+      rw [hl] at h
+      cases h
+      obtain ⟨h1, h2, h3, h4, h5⟩ := Trim.trimLoop_ok k t _ m s hm hl
+      refine ⟨s, ⟨h1, h2, (hCF s).2 h3, fun s' _ hs' hc' => h4 s' hs' ((hCF s').1 hc')⟩,
+        rfl, rfl, ?_, Trim.Mask.indices_ne_nil_of_count_pos h5⟩
+      exact (Trim.obtainVertices_inducedAccessor h1 (by omega) h3).symm
+  · cases hl : trimLoop k t (4 ^ k + 1) m with
+    | ok s => rw [hl] at h; cases h
+    | error e' =>
+      rw [hl] at h
+      cases h
+      obtain ⟨h1, h2⟩ := Trim.trimLoop_error k t _ m e hm hfuel hl
+      refine ⟨h1, fun s _ hsub hc => ?_⟩
+      apply List.eq_nil_iff_forall_not_mem.2
+      intro v hv
+      exact h2 s hsub ((hCF s).1 hc) v (Trim.Mask.mem_indices.1 hv)
 
 /-- the first phase alone, for every threshold including 1: `trimLoop` returns the greatest
 `Closed k t` subset, or `ValueError` iff that subset is empty; it never runs out of fuel. -/
@@ -70,7 +96,13 @@ theorem C03_trimLoop (k t : Nat) (m : Mask) (hm : m.size = 4 ^ k) (hk : 1 ≤ k)
         (∀ s' : Mask, s'.Sub m → Closed k t s' → s'.Sub s) ∧ s.indices ≠ []) ∧
     (∀ e, trimLoop k t (4 ^ k + 1) m = .error e →
         e = .valueError ∧ ∀ s' : Mask, s'.Sub m → Closed k t s' → ∀ v, v < 4 ^ k → ¬ s'.has v) := by
-  sorry
+  have hfuel : m.count < 4 ^ k + 1 := by
+    have := Trim.Mask.count_le_size m; omega
+  refine ⟨fun s h => ?_, fun e h => ?_⟩
+  · obtain ⟨h1, h2, h3, h4, h5⟩ := Trim.trimLoop_ok k t _ m s hm h
+    exact ⟨h1, h2, h3, h4, Trim.Mask.indices_ne_nil_of_count_pos h5⟩
+  · obtain ⟨h1, h2⟩ := Trim.trimLoop_error k t _ m e hm hfuel h
+    exact ⟨h1, fun s' hs hc v _ => h2 s' hs hc v⟩
 
 /-- a smaller mask never yields a larger graph (t ≥ 2). -/
 theorem C03_mono (k t : Nat) (m m' : Mask) (hm : m.size = 4 ^ k) (hm' : m'.size = 4 ^ k) (hk : 1 ≤ k)
@@ -78,6 +110,49 @@ theorem C03_mono (k t : Nat) (m m' : Mask) (hm : m.size = 4 ^ k) (hm' : m'.size 
     (h : connectCodingGraph k m t = .ok (vs, a)) :
     ∃ vs' a', connectCodingGraph k m' t = .ok (vs', a') ∧ (∀ v ∈ vs, v ∈ vs') ∧
       ∀ v j, v < 4 ^ k → j < 4 → 0 ≤ a.ent v j → a'.ent v j = a.ent v j := by
+  have ht1 : t ≠ 1 := by omega
+  have hfuel : m'.count < 4 ^ k + 1 := by
+    have := Trim.Mask.count_le_size m'; omega
+  rw [Trim.connectCodingGraph_eq k m t ht1] at h
+  rw [Trim.connectCodingGraph_eq k m' t ht1]
+  cases hl : trimLoop k t (4 ^ k + 1) m with
+  | error e => rw [hl] at h; cases h
+  | ok s =>
+    rw [hl] at h
+    cases h
+    obtain ⟨_, h2, h3, _, h5⟩ := Trim.trimLoop_ok k t _ m s hm hl
+    have hsm' : Trim.Mask.Le s m' := Trim.Mask.Le.trans h2 hsub
+    cases hl' : trimLoop k t (4 ^ k + 1) m' with
+    | error e =>
+      exfalso
+      obtain ⟨v, _, hv⟩ := Trim.Mask.exists_of_count_pos h5
+      exact (Trim.trimLoop_error k t _ m' e hm' hfuel hl').2 s hsm' h3 v hv
+    | ok s' =>
+      have hss' : Trim.Mask.Le s s' := Trim.trimLoop_ok_max hm' hl' hsm' h3
+      refine ⟨s'.indices, inducedAccessor k s', rfl, fun v hv => ?_, fun v j hv hj hent => ?_⟩
+      · exact Trim.Mask.mem_indices.2 (hss' v (Trim.Mask.mem_indices.1 hv))
+      · exact Trim.inducedAccessor_ent_mono hss' v j hv hj hent
+
+/-- threshold 1: after the trimming loop the code repeatedly removes every vertex that cannot
+reach a vertex with two or more arcs (backward closure from the branching vertices) and cascades
+the removal to predecessors left without arcs; the result is the largest `Closed1` sub-graph, or
+`ValueError`; none of the fuel-bounded loops of the model runs out of fuel. -/
+theorem C03_t1 (k : Nat) (m : Mask) (hm : m.size = 4 ^ k) (hk : 1 ≤ k) :
+    (∀ vs a, connectCodingGraph k m 1 = .ok (vs, a) →
+        ∃ s : Mask, IsLargestClosed k 1 m s ∧ a = inducedAccessor k s ∧ vs = s.indices ∧
+          vs = obtainVertices a ∧ vs ≠ []) ∧
+    (∀ e, connectCodingGraph k m 1 = .error e →
+        e = .valueError ∧ ∀ s : Mask, s.size = 4 ^ k → s.Sub m → ClosedFor k 1 s → s.indices = []) := by
+  sorry
+
+/-- the full statement, every threshold 1…4. -/
+theorem C03_holds : C03_statement := by
+  sorry
+
+/-- trimming a latter map to the same threshold gives the same graph for t ≥ 2. -/
+theorem C03_latter_map (k t : Nat) (m : Mask) (hm : m.size = 4 ^ k) (hk : 1 ≤ k) (ht : 2 ≤ t)
+    (vs : List Nat) (a : Acc) (h : connectCodingGraph k m t = .ok (vs, a)) :
+    latterMapToAccessor (accessorToLatterMap (inducedAccessor k m)) k (some t) = .ok a := by
   sorry
 
 /-- the input mask is an immutable value in the model; the function is a pure function of it
@@ -89,5 +164,8 @@ example : connectCodingGraph 2 #[false, true, true, false, true, false, false, t
     true, false, false, true, false, true, true, false] 2 = .ok ([1, 2, 4, 7, 8, 11, 13, 14], gcBalanced2) := by
   decide +kernel
 example : connectCodingGraph 1 #[true, false, false, false] 2 = .error .valueError := by decide +kernel
+/-- threshold 1 on a mask with an information-free cycle (vertex AA alone) next to a branching part. -/
+example : (connectCodingGraph 2 #[true, true, true, false, true, false, false, false,
+    true, false, false, false, false, false, false, false] 1).toBool = true := by decide +kernel
 
 end Dsw
